@@ -97,3 +97,93 @@ def translated(ctx):
 def rel_diff(A, B):
     s = max(np.abs(A).max(), np.abs(B).max(), 1e-300)
     return float(np.abs(A - B).max() / s)
+
+
+# ----------------------------------------------------------------------------- redefinition stream (shared by C03, C04, C19)
+REDEF_EDITS = ['offset', 'geometry', 'alphadeg', 'mu', 'flags', 'stack', 'plyt', 'loads']
+
+
+def redefinition_check(rng, t, call, models=('Plate', 'CPanel', 'KPanel'), extra=None, skip=()):
+    """A Panel that was already evaluated is EDITED (one kind of edit per call, cycling with `t`) and evaluated again WITHOUT any
+    other call in between; the result must be that of a freshly defined panel with the edited data.
+    `call(panel)` -> dense matrix / vector; `extra(panel, case)` sets additional attributes (loads, flow, ...).
+    returns (description, failure text or None)"""
+    edits = [e for e in REDEF_EDITS if e not in skip]
+    edit = edits[t % len(edits)]
+    if edit == 'alphadeg':
+        models = ('KPanel',)
+    case = gen_panel_case(rng, models=models, max_mn=3, y12=False)
+    case['loads'] = dict(Nxx=rng.uniform(-2, 2), Nyy=rng.uniform(-2, 2), Nxy=rng.uniform(-2, 2))
+    if case['lean_model'] == 'KPanel' and not case['alphadeg']:
+        case['alphadeg'] = rng.uniform(5., 30.)
+        case['r'] = max(case['r'], 1.5 * case['a'] * math.sin(math.radians(case['alphadeg'])) + 0.3)
+    if len(case['stack']) < 2:
+        case['stack'] = list(case['stack']) + [30.]
+
+    def build(c):
+        p = make_panel(c)
+        for k, v in c['loads'].items():
+            setattr(p, k, v)
+        if extra:
+            extra(p, c)
+        return p
+    c2 = dict(case, stack=list(case['stack']), flags=dict(case['flags']), loads=dict(case['loads']))
+    p = build(case)
+    quiet(p.calc_k0, silent=True)
+    first = call(p)
+    if edit == 'offset':
+        c2['offset'] = case['offset'] + rng.choice([-1., 1.]) * rng.uniform(0.3, 1.5) * case['plyt']
+        p.offset = c2['offset']
+    elif edit == 'geometry':
+        c2['a'], c2['b'] = case['a'] * 1.25, case['b'] * 0.8
+        p.a, p.b = c2['a'], c2['b']
+        if case['r']:
+            c2['r'] = case['r'] * 1.5
+            p.r = c2['r']
+    elif edit == 'alphadeg':
+        c2['alphadeg'] = rng.choice([0., case['alphadeg'] * 0.5])
+        p.alphadeg = c2['alphadeg']
+    elif edit == 'mu':
+        c2['mu'] = case['mu'] * 3.
+        p.mu = c2['mu']
+    elif edit == 'flags':
+        for k_ in rng.sample(sorted(c2['flags']), 5):
+            c2['flags'][k_] = 1. - c2['flags'][k_] if c2['flags'][k_] in (0., 1.) else 0.
+            setattr(p, k_, c2['flags'][k_])
+    elif edit == 'stack':
+        k_ = rng.randrange(len(c2['stack']))
+        c2['stack'][k_] = c2['stack'][k_] + rng.choice([15., 30., -40.])
+        p.stack[k_] = c2['stack'][k_]
+    elif edit == 'plyt':
+        c2['plyt'] = case['plyt'] * 1.5
+        p.plyt = c2['plyt']
+        p.plyts = []
+    else:
+        c2['loads'] = dict(Nxx=case['loads']['Nxx'] * 2., Nyy=-case['loads']['Nyy'], Nxy=case['loads']['Nxy'] + 1.)
+        for k, v in c2['loads'].items():
+            setattr(p, k, v)
+    got = call(p)
+    fresh = build(c2)
+    quiet(fresh.calc_k0, silent=True)
+    want = call(fresh)
+    d = rel_diff(np.asarray(got), np.asarray(want))
+    desc = dict(case=case, edit=edit, edited=c2)
+    if d > 1e-12:
+        return desc, ('after editing the panel\'s %s the result differs from that of a freshly defined panel with the edited data: '
+                      'rel %.3e (change against the first evaluation: %.3e)' % (edit, d, rel_diff(np.asarray(first), np.asarray(want))))
+    return desc, None
+
+
+def independent_ABD(case):
+    """6x6 laminate matrix from the case data by the independent oracle of C01 (tensor rotation by matrix products + Gauss
+    quadrature through the thickness) - NOT from compmech.composite; with `force_orthotropic_laminate` the 16/26 terms of A, B, D
+    are removed (what the option documents)"""
+    from tools.props import C01
+    A, B, D, E = C01.oracle(dict(stack=list(case['stack']), plyts=[], plyt=case['plyt'], laminaprops=[],
+                                 laminaprop=tuple(case['laminaprop']), offset=case['offset']))
+    F = np.block([[A, B], [B, D]])
+    if case.get('force_ortho'):
+        for blk in ((0, 0), (0, 3), (3, 0), (3, 3)):
+            for (i, j) in ((0, 2), (1, 2), (2, 0), (2, 1)):
+                F[blk[0] + i, blk[1] + j] = 0.
+    return F
